@@ -165,7 +165,27 @@ def with_json(streams, jbytes, k=0):
     return f
 
 
-def write_files(td, files):
+def table_for(inp):
+    """A quarter of the inputs (decided by their content) comes with a well-formed clock offset table for the
+    hosts of its looms, as ovnisync would have left it in the trace directory (ovniemu loads it)."""
+    if int(inp.key()[:6], 16) % 4 != 1 and "[with-table]" not in inp.label:
+        return None
+    hosts = []
+    for rel, j, o in inp.files:
+        m = re.match(r"loom\.([^./]+)", rel)
+        if m and m.group(1) not in hosts:
+            hosts.append(m.group(1))
+    txt = "rank       hostname             offset_median        offset_mean          offset_std\n"
+    for r, h in enumerate(hosts):
+        txt += "%-10d %-20s %-20d %-20.6f %-20.6f\n" % (r, h, 1000 * r, 1000.0 * r + 0.5, 2.5)
+    return txt.encode()
+
+
+def write_files(td, files, table=None):
+    if table is not None:
+        os.makedirs(td, exist_ok=True)
+        with open(os.path.join(td, "clock-offsets.txt"), "wb") as f:
+            f.write(table)
     for rel, j, o in files:
         d = os.path.join(td, rel)
         os.makedirs(d, exist_ok=True)
@@ -797,6 +817,19 @@ def gen_meta(ck, rng, tier, sd):
                 for vn, v in rng.sample(JVALS, 6):
                     out.append(Inp("meta-type", "stream1 %s = %s" % (ps, vn), n,
                                    with_json(s, json.dumps(_set(m2, p, v)).encode(), k=1)))
+    # a stream that is not a thread stream (ovni.part is another string: the emulator ignores it) next to thread
+    # streams, with and without a clock offset table in the trace directory, with and without events
+    for n, s in sd:
+        if len(s) < 2:
+            continue
+        for k_ in range(len(s)):
+            mk = json.loads(s[k_][1]) if isinstance(s[k_][1], (bytes, str)) else s[k_][1]
+            aux = json.dumps(_set(mk, ["ovni", "part"], "aux")).encode()
+            for tab in ("", " [with-table]"):
+                out.append(Inp("non-thread-stream", "stream%d ovni.part = aux%s" % (k_, tab), n, with_json(s, aux, k=k_)))
+                files = with_json(s, aux, k=k_)
+                files[k_] = (files[k_][0], files[k_][1], files[k_][2][:8])
+                out.append(Inp("non-thread-stream", "stream%d ovni.part = aux, no events%s" % (k_, tab), n, files))
     ck.notes["metadata_keys_mutated"] = sorted(keys_seen)
     # mark definitions: names of types and labels, missing members
     n, s = [x for x in sd if x[0] == "marks"][0]
@@ -965,13 +998,13 @@ def run_case(bdir, inp, tool, timeout, keep=None):
     d = keep or _scratch()
     try:
         td = os.path.join(d, "trace")
-        write_files(td, inp.files)
+        write_files(td, inp.files, table_for(inp))
         res = run_tool(bdir, exe, args + [td], timeout)
         cls = classify(res)
         art = 0
         if cls and tn in ("ovnisort", "ovnisort-n4") and any(f in cls[1] for f in _AFTER_REWRITE):
             shutil.rmtree(td, ignore_errors=True)
-            write_files(td, inp.files)
+            write_files(td, inp.files, table_for(inp))
             res2 = run_tool(bdir, exe, args + [td], timeout, heapbuf=False)
             cls2 = classify(res2)
             if cls2 is None:
@@ -996,6 +1029,8 @@ def bundle_for(inp, tn, exe, args, res, cls, sig):
                                     "stream.obs.hex": o.hex() if len(o) <= 4096 else None,
                                     "stream.obs.len": len(o)} for rel, j, o in inp.files]},
          "stderr.txt": res.text}
+    if table_for(inp) is not None:
+        b["trace/clock-offsets.txt"] = table_for(inp)
     for rel, j, o in inp.files:
         b["trace/%s/stream.json" % rel] = j
         b["trace/%s/stream.obs" % rel] = o
